@@ -190,6 +190,9 @@ def eq(p, ref):
     return p.shape == ref.shape and bool(torch.all((p - ref).abs() <= 1e-9))
 
 
+KSTEPS = st.one_of(st.integers(0, 3), st.integers(0, 3), st.integers(0, 3), st.sampled_from([16, 17, 20, 33, 37]))     # occasionally a long chain (more than 16 / 32 steps)
+
+
 @st.composite
 def histories(draw, tier):
     sc = draw(gen.state_case(n=(1, 3), nh=(1, 3), na=(1, 3), scales=[0.5, 2.0, 2.0, 8.0], bound=60.0))
@@ -198,15 +201,17 @@ def histories(draw, tier):
     ops = []
     m_fixed = draw(st.integers(1, 3))
     for _ in range(draw(st.integers(1, 8))):
-        kind = draw(st.sampled_from(["fresh", "start", "continue", "continue", "reparam", "reinit_reparam", "other_object"]))
+        kind = draw(st.sampled_from(["fresh", "start", "continue", "continue", "reparam", "reinit_reparam", "other_object", "refused"]))
         op = {"op": kind}
+        if kind == "refused":
+            op["how"] = draw(st.sampled_from(["width", "width", "k_not_integer", "readonly_overwrite"]))
         if kind == "fresh":
-            op.update(k=draw(st.integers(0, 3)), m=m_fixed if draw(st.booleans()) else draw(st.integers(1, 3)))
+            op.update(k=draw(KSTEPS), m=m_fixed if draw(st.booleans()) else draw(st.integers(1, 3)))
         elif kind == "start":
             op.update(k=draw(st.integers(0, 3)), idx=draw(gen.index_list(n, 1, 3)), overwrite=draw(st.booleans()), one_d=draw(st.booleans()),
                       dtype=draw(st.sampled_from(["float64", "float64", "float32"])))
         elif kind == "continue":
-            op.update(k=draw(st.integers(0, 3)), overwrite=draw(st.booleans()))
+            op.update(k=draw(KSTEPS), overwrite=draw(st.booleans()))
         ops.append(op)
     us = draw(st.lists(st.floats(0, 1, exclude_max=True, allow_nan=False, width=64), min_size=8, max_size=48))
     return {"state": sc, "alt": alt, "ops": ops, "us": us}
@@ -245,6 +250,20 @@ def check_history(case):
                 gen.set_net(state.rbm_am, case["alt"])
                 am = R.net_from_case(case["alt"])
                 labels.add("reinitialised")
+                continue
+            if op["op"] == "refused":
+                # after an exception: a sample() call that fails (start of the wrong width, non-integer k, a start that cannot be overwritten),
+                # caught as a caller would; later calls - also after a parameter change - draw from the kernel of the CURRENT parameters
+                try:
+                    if op["how"] == "width":
+                        state.sample(2, initial_state=torch.zeros(2, n + 1, dtype=torch.double))
+                    elif op["how"] == "k_not_integer":
+                        state.sample(1.5, num_samples=2)
+                    else:
+                        state.sample(2, initial_state=torch.zeros(1, n, dtype=torch.double).expand(3, n), overwrite=True)
+                except Exception:
+                    pass
+                labels.add("after_refused_call")
                 continue
             if op["op"] == "other_object":
                 # shared class: ANOTHER state of the same class and sizes (other parameters) samples in between
@@ -354,8 +373,11 @@ M = 20000
 
 @st.composite
 def empirical(draw, tier):
-    sc = draw(gen.state_case(n=(1, 4), nh=(1, 4), na=(1, 3), scales=[0.5, 2.0], bound=40.0))
-    return {"state": sc, "k": draw(st.integers(1, 3)), "v0": draw(st.integers(0, 2 ** sc["n"] - 1)), "torch_seed": draw(st.integers(0, 2 ** 31 - 1)),
+    k = draw(st.sampled_from([1, 2, 3, 1, 2, 3, 17, 20, 37, 200]))
+    # long chains (k up to 200) are drawn together with strong couplings: slowly mixing kernels, whose k-step law from a fixed start still
+    # differs from the law after 16 or 32 steps
+    sc = draw(gen.state_case(n=(1, 4), nh=(1, 4), na=(1, 3), scales=[0.5, 2.0], bound=40.0)) if k <= 3 else draw(gen.state_case(n=(2, 4), nh=(1, 2), na=(1, 2), scales=[2.0, 4.0, 6.0], bound=40.0))
+    return {"state": sc, "k": k, "v0": draw(st.integers(0, 2 ** sc["n"] - 1)), "torch_seed": draw(st.integers(0, 2 ** 31 - 1)),
             "m": draw(st.integers(1, 5))}
 
 
@@ -405,12 +427,13 @@ def check_empirical(case):
         # M = 20000 chains from the same start: two independent one-step draws coincide on every chain only if the kernel row is a point mass
         if float(T[case["v0"]].max()) < 1 - 1e-3:
             require(not torch.equal(c1, c2), "empirical:consecutive-calls-repeat", "two consecutive one-step draws from the same start states are identical on all chains")
-    return {"nontrivial": nt_arch(sc), "labels": gen.arch_label(sc) + [f"k={case['k']}"]}
+    unmixed = case["k"] > 16 and float((torch.linalg.matrix_power(T, 16)[case["v0"]] - Tk[case["v0"]]).abs().max()) > 2 * eps
+    return {"nontrivial": nt_arch(sc), "labels": gen.arch_label(sc) + [f"k={case['k']}"] + (["law_after_16_steps_differs"] if unmixed else [])}
 
 
 SUBCHECKS = [
     Sub("kernel", check_kernel, strategy=lambda tier: gen.state_case(n=(1, 4), nh=(1, 4), na=(1, 3), bound=100.0), quick=800, thorough=20000,
         nontrivial=nt_arch, labels=gen.arch_label),
     Sub("history", check_history, strategy=lambda tier: histories(tier), quick=800, thorough=20000),
-    Sub("empirical", check_empirical, strategy=lambda tier: empirical(tier), quick=32, thorough=600),
+    Sub("empirical", check_empirical, strategy=lambda tier: empirical(tier), quick=64, thorough=800, per_shard=4),
 ]
